@@ -12,6 +12,7 @@ import (
 func (e *Enc) exec(ins ssa.Instruction, st *State) {
 	m := e.M
 	e.curState = st
+	e.curInstr = ins
 	switch x := ins.(type) {
 	case *ssa.DebugRef:
 		return
@@ -72,6 +73,11 @@ func (e *Enc) exec(ins ssa.Instruction, st *State) {
 		return
 	case *ssa.Panic:
 		e.retOrd++
+		if strings.HasPrefix(x.Block().Comment, "rangefunc.") {
+			// run-time check of the range-over-func protocol (the iterator called yield after it was told to stop)
+			e.assumptions["iterators used in range-over-func loops respect the yield protocol"] = true
+			return
+		}
 		anchor := e.srcText(x.Pos())
 		if anchor == "" {
 			anchor = "panic"
@@ -148,6 +154,9 @@ func (e *Enc) exec(ins ssa.Instruction, st *State) {
 			case *ssa.UnOp:
 				if u := ins.(*ssa.UnOp); u.Op.String() == "*" && e.pass == 2 {
 					e.emitAssert(e.curBlock, e.typeFacts(b, st))
+					if root, ok := u.X.(*ssa.Alloc); !ok || !e.nonEsc[root] {
+						e.emitAssert(e.curBlock, e.notLocal(b))
+					}
 				}
 			}
 			return
